@@ -13,6 +13,18 @@
 //	bind    real SHA-1 (seam off): both copies == refjava on an enumerated family of (serverID, secret, key)
 //	        triples and on the published wiki.vg vectors
 //	sig     VerifySignature and PublicKey.Verify on a finite forgery family; every member must be refused
+//
+// Histories, size classes and entry points (sizes.go, history.go, wiring.go):
+//
+//	lengths  uuid: every name length 0..N in four fills; bind: every length 0..N of one field with the others
+//	         at vanilla lengths, plus the product of a boundary-length menu over all three fields
+//	walk     every binding walk is sequential per goroutine and re-reads the previous result after the next
+//	         call returned (a result must not alias recycled scratch memory)
+//	sig-history  with the harness key as the trusted key: every sequence (bounded length) of operations on ONE
+//	         PublicKey (assign/overwrite Signature, assign PubKey, ReadFrom into it, copy by value) after a genuine
+//	         Verify, and every sequence of VerifySignature calls over a (key, signature) menu
+//	wire     the session hash inside bot.Client.JoinServerWithOptions and server/auth.Encrypt (exported entry
+//	         points, in-memory pipe, http.DefaultTransport replaced by a recorder)
 package main
 
 import (
@@ -45,9 +57,10 @@ import (
 var rep *engine.Report
 
 type Case struct {
-	Part string `json:"part"`
-	Copy string `json:"copy,omitempty"` // bot | auth
-	Hex  string `json:"hex,omitempty"`  // uuid: name bytes; twos: input; digest: the digest
+	Part   string `json:"part"`
+	Family string `json:"family,omitempty"` // bind: "lengths" (class by input size); uuid: "lengths"
+	Copy   string `json:"copy,omitempty"`   // bot | auth
+	Hex    string `json:"hex,omitempty"`    // uuid: name bytes; twos: input; digest: the digest
 
 	ServerID string `json:"server_id_hex,omitempty"`
 	Secret   string `json:"secret_hex,omitempty"`
@@ -58,6 +71,12 @@ type Case struct {
 	KeyKind string `json:"key_kind,omitempty"` // empty | garbage | harness-der
 	Content string `json:"content,omitempty"`
 	SigLen  int    `json:"sig_len,omitempty"`
+
+	Bits int `json:"key_bits,omitempty"` // wire: size of the server key
+
+	Then *Case `json:"then,omitempty"` // bind-pair: the call after which the first call's result is read again
+
+	Ops []string `json:"ops,omitempty"` // sig-history: operations on one PublicKey / successive VerifySignature calls
 }
 
 func fail(class string, size int, c Case, format string, a ...any) {
@@ -79,22 +98,40 @@ var copies = []digestFn{
 	{"auth", auth.VerifAuthDigest, auth.VerifTwosComplement, auth.VerifSetSha1, auth.VerifSeam},
 }
 
-// echoHash is the seam: "SHA-1" whose result is whatever 20 bytes were written to it. The harness passes
-// the digest it wants as the shared secret (server id and key empty), so the seam is stateless and safe
-// under parallel enumeration.
-type echoHash struct{ buf []byte }
+// echoHash is the seam: while the seam is active, "SHA-1" whose result is whatever 20 bytes were written
+// to it. The harness passes the digest it wants as the shared secret (server id and key empty), so the seam
+// is stateless and safe under parallel enumeration. While the seam is NOT active an echoHash behaves as the
+// real SHA-1 it wraps, so an object that go-mc retains beyond the call (a free list of hashers) is harmless
+// once the seam is switched off.
+type echoHash struct {
+	real hash.Hash
+	buf  []byte
+}
 
-var seamSums int64 // number of digests handed out by the seam
+var (
+	seamActive   atomic.Bool
+	seamSums     int64 // number of digests handed out by the seam
+	seamBypassed int64 // enumerated digests that were hashed by an object the seam does not control
+)
 
-func (e *echoHash) Write(p []byte) (int, error) { e.buf = append(e.buf, p...); return len(p), nil }
+func newEchoHash() hash.Hash { return &echoHash{real: sha1.New()} }
+
+func (e *echoHash) Write(p []byte) (int, error) {
+	e.buf = append(e.buf, p...)
+	return e.real.Write(p)
+}
+
 func (e *echoHash) Sum(b []byte) []byte {
+	if !seamActive.Load() {
+		return e.real.Sum(b)
+	}
 	if len(e.buf) != 20 {
 		engine.HarnessError("seam hash asked for a digest after %d bytes of input", len(e.buf))
 	}
 	atomic.AddInt64(&seamSums, 1)
 	return append(b, e.buf...)
 }
-func (e *echoHash) Reset()         { e.buf = e.buf[:0] }
+func (e *echoHash) Reset()         { e.buf = e.buf[:0]; e.real.Reset() }
 func (e *echoHash) Size() int      { return 20 }
 func (e *echoHash) BlockSize() int { return 64 }
 
@@ -234,6 +271,12 @@ func judgeDigest(d []byte) {
 			continue
 		}
 		if got[ci] != want {
+			if r := sha1.Sum(d); got[ci] == refjava.BigIntegerHex(r[:]) {
+				// the correct rendering of the REAL SHA-1 of the 20 input bytes: this call hashed with an object
+				// the seam does not control (e.g. a hasher retained from an earlier call). Not a verdict; capped.
+				atomic.AddInt64(&seamBypassed, 1)
+				return
+			}
 			fail("digest/"+cp.name+".authDigest/differs-from-java/"+digestShape(d), digestSize(d), Case{Part: "digest", Copy: cp.name, Hex: hex.EncodeToString(d)}, "digest %x rendered as %q, new BigInteger(digest).toString(16) is %q", d, got[ci], want)
 		}
 	}
@@ -253,7 +296,42 @@ type bindStats struct{ leadZeroByte, leadZeroNibble, negative, trailZero, negTra
 
 var bstats bindStats
 
-func judgeBind(serverID string, secret, key []byte) {
+func judgeBind(serverID string, secret, key []byte) { judgeBindF("", serverID, secret, key) }
+
+// bindWalker drives successive binding calls on one goroutine and, besides judging each call, checks
+// that the string a call returned still has the value it had on return after the NEXT call of the same copy
+// has returned (a result that aliases recycled scratch memory changes under its holder).
+type bindWalker struct {
+	have bool
+	prev [2]string // the strings as returned
+	snap [2]string // deep copies taken on return
+	c    Case
+}
+
+func (w *bindWalker) call(serverID string, secret, key []byte) {
+	got := judgeBindF("", serverID, secret, key)
+	if w.have {
+		for ci, cp := range copies {
+			if w.prev[ci] != w.snap[ci] {
+				c := w.c
+				c.Copy = cp.name
+				c.Then = &Case{Part: "bind", ServerID: hex.EncodeToString([]byte(serverID)), Secret: hex.EncodeToString(secret), Key: hex.EncodeToString(key)}
+				fail("bind/"+cp.name+".authDigest/result-changed-after-next-call", len(serverID)+len(secret)+len(key), c,
+					"the session hash returned for one login read %q on return and reads %q after the next authDigest call returned", w.snap[ci], w.prev[ci])
+			}
+		}
+	}
+	w.have = true
+	w.prev = got
+	for ci := range got {
+		w.snap[ci] = strings.Clone(got[ci])
+	}
+	w.c = Case{Part: "bind-pair", ServerID: hex.EncodeToString([]byte(serverID)), Secret: hex.EncodeToString(secret), Key: hex.EncodeToString(key)}
+}
+
+// judgeBindF: family "" classifies a failure by the digest's shape, family "lengths" by the size class of
+// the hashed input (the digest of a truncated or reordered input has an arbitrary shape).
+func judgeBindF(family, serverID string, secret, key []byte) (got [2]string) {
 	h := sha1.New()
 	h.Write([]byte(serverID))
 	h.Write(secret)
@@ -274,9 +352,12 @@ func judgeBind(serverID string, secret, key []byte) {
 	if d[19] == 0 {
 		atomic.AddInt64(&bstats.trailZero, 1)
 	}
-	var got [2]string
-	c := Case{Part: "bind", ServerID: hex.EncodeToString([]byte(serverID)), Secret: hex.EncodeToString(secret), Key: hex.EncodeToString(key)}
+	c := Case{Part: "bind", Family: family, ServerID: hex.EncodeToString([]byte(serverID)), Secret: hex.EncodeToString(secret), Key: hex.EncodeToString(key)}
 	size := len(serverID) + len(secret) + len(key)
+	shape := digestShape(d)
+	if family == "lengths" {
+		shape = "input-" + sizeClass(size)
+	}
 	for ci, cp := range copies {
 		s2, k2 := append([]byte(nil), secret...), append([]byte(nil), key...)
 		kind, frame, p := engine.Guard(func() { got[ci] = cp.digest(serverID, s2, k2) })
@@ -287,12 +368,13 @@ func judgeBind(serverID string, secret, key []byte) {
 		if got[ci] != want {
 			cc := c
 			cc.Copy = cp.name
-			fail("bind/"+cp.name+".authDigest/differs-from-java/"+digestShape(d), size, cc, "authDigest(%q, %x, %x) = %q; SHA-1 is %x and Java renders it %q", serverID, clipH(secret), clipH(key), got[ci], d, want)
+			fail("bind/"+cp.name+".authDigest/differs-from-java/"+shape, size, cc, "authDigest(%q, %x, %x) = %q; SHA-1 is %x and Java renders it %q", serverID, clipH(secret), clipH(key), got[ci], d, want)
 		}
 	}
 	if got[0] != got[1] {
-		fail("bind/copies-disagree/"+digestShape(d), size, c, "client side %q, server side %q", got[0], got[1])
+		fail("bind/copies-disagree/"+shape, size, c, "client side %q, server side %q", got[0], got[1])
 	}
+	return
 }
 
 // concurrentBind computes session hashes for distinct triples on 16 goroutines at once (both
@@ -306,8 +388,9 @@ func concurrentBind() {
 		wg.Add(1)
 		go func(w int) {
 			defer wg.Done()
+			var bw bindWalker
 			for i := 0; i < per; i++ {
-				judgeBind(fmt.Sprintf("c%d-%d", w, i), []byte{byte(w), byte(i), byte(i >> 8), 0x5a}, []byte{0x30, 0x82, byte(i)})
+				bw.call(fmt.Sprintf("c%d-%d", w, i), []byte{byte(w), byte(i), byte(i >> 8), 0x5a}, []byte{0x30, 0x82, byte(i)})
 			}
 		}(w)
 	}
@@ -695,21 +778,67 @@ func judge(c Case) {
 		s, _ := hex.DecodeString(c.ServerID)
 		x, _ := hex.DecodeString(c.Secret)
 		k, _ := hex.DecodeString(c.Key)
-		judgeBind(string(s), x, k)
+		judgeBindF(c.Family, string(s), x, k)
 		rep.Eval(2)
+	case "bind-pair":
+		if c.Then == nil {
+			engine.HarnessError("bind-pair case without a second call")
+		}
+		var bw bindWalker
+		for _, x := range []Case{c, *c.Then} {
+			s, _ := hex.DecodeString(x.ServerID)
+			sec, _ := hex.DecodeString(x.Secret)
+			k, _ := hex.DecodeString(x.Key)
+			bw.call(string(s), sec, k)
+		}
+		rep.Eval(4)
 	case "sig":
 		judgeSig(c)
 	case "sig-expired":
 		judgeExpired()
+	case "wire":
+		withRecorder(func() {
+			if c.Entry == "bot" {
+				s, _ := hex.DecodeString(c.ServerID)
+				judgeWireBot(string(s), c.Bits)
+			} else {
+				x, _ := hex.DecodeString(c.Secret)
+				judgeWireServer(x, c.Bits)
+			}
+		})
+	case "sig-history":
+		old := user.VerifSetMojangKey(&fam.other.PublicKey)
+		if !hm.ready && !initHist(old) {
+			engine.HarnessError("no genuine pair can be built for the history replay")
+		}
+		if c.Entry == "VerifySignature" {
+			judgeCallHistory(c.Ops)
+		} else {
+			judgeObjHistory(c.Ops)
+		}
+		user.VerifSetMojangKey(old)
 	default:
 		engine.HarnessError("unknown part %q", c.Part)
 	}
 }
 
+// lap records the wall time of each part (evidence only; nothing is decided by it).
+var (
+	lapLast  = time.Now()
+	lapParts = map[string]float64{}
+)
+
+func lap(part string) {
+	now := time.Now()
+	lapParts[part] = float64(now.Sub(lapLast).Milliseconds()) / 1000
+	lapLast = now
+}
+
 func installSeam(on bool) {
+	seamActive.Store(on)
 	for _, cp := range copies {
 		if on {
-			cp.setSha(func() hash.Hash { return &echoHash{} })
+			cp.setSha(newEchoHash)
 		} else {
 			cp.setSha(nil)
 		}
@@ -746,7 +875,7 @@ func selftest() {
 
 func main() {
 	rep = engine.NewReport("C18")
-	rep.Rule = "uuid: every listed name and every 1-/2-byte name; twos: every byte string of length <=3 and every grammar digest, per copy; digest: every [lz zero bytes][head][body][tz zero bytes] 20-byte string (head 1..255, 4 zero-free bodies, all lz/tz; plus all 65536 two-byte heads) — the grammar is injective; bind: every (serverID, secret, key) of the product alphabets and every counter-suffixed server id; sig: every (entry, key input, content, length). distinct = enumerated tuples; non-trivial = all except the empty name / empty byte string"
+	rep.Rule = "uuid: every listed name and every 1-/2-byte name; twos: every byte string of length <=3 and every grammar digest, per copy; digest: every [lz zero bytes][head][body][tz zero bytes] 20-byte string (head 1..255, 4 zero-free bodies, all lz/tz; plus all 65536 two-byte heads) — the grammar is injective; bind: every (serverID, secret, key) of the product alphabets and every counter-suffixed server id; sig: every (entry, key input, content, length); lengths: every length 0..N per hashed field (uuid names in four fills; server id / secret / key one at a time, plus a boundary-length product); sig-history: every operation sequence up to the stated length on one PublicKey object and every VerifySignature call sequence, under a harness trusted key; wire: every (server id, key size, repeat) for the bot login flow and (secret, key size) for auth.Encrypt. distinct = enumerated tuples; non-trivial = all except the empty name / empty byte string"
 	if rep.ReplayPath == "" {
 		concurrentBind() // before the seam is ever installed: only real SHA-1 objects exist
 		if rep.Failed() {
@@ -778,6 +907,7 @@ func main() {
 		rep.Finish()
 	}
 	th := rep.Thorough()
+	lap("selftest+concurrent-bind")
 	famReady := make(chan struct{})
 	go func() { initFamily(); close(famReady) }()
 
@@ -810,11 +940,17 @@ func main() {
 		})
 		nUUID += int64(len(alpha) * len(alpha) * len(alpha) * len(alpha))
 	}
+	if th {
+		nUUID += uuidLengths(16384)
+	} else {
+		nUUID += uuidLengths(2048)
+	}
 	rep.Eval(nUUID)
 	rep.Count("uuid_names", nUUID)
 	states += nUUID
 	rep.Sample(Case{Part: "uuid", Hex: hex.EncodeToString([]byte("Tnze"))})
 
+	lap("uuid")
 	// ---- twosComplement, all strings of length <= 3
 	for ci := range copies {
 		engine.Guard(func() { copies[ci].twos(nil) }) // empty input: nothing to compare, must not panic
@@ -862,6 +998,7 @@ func main() {
 		}
 	}
 
+	lap("twos")
 	// ---- digest grammar
 	bodies := [][]byte{bytes.Repeat([]byte{0xff}, 20), bytes.Repeat([]byte{0x0f}, 20), bytes.Repeat([]byte{0xf0}, 20), nil}
 	for i := 0; i < 20; i++ {
@@ -931,6 +1068,10 @@ func main() {
 		installSeam(false)
 		rep.Eval(2 * nDigest)
 		rep.Count("digests_enumerated_through_seam", nDigest)
+		if n := atomic.LoadInt64(&seamBypassed); n > 0 {
+			rep.Count("digest_calls_that_bypassed_the_seam", n)
+			rep.Cap("%d authDigest calls of the enumerated-digest pass hashed with an object the seam does not control (their result is the correct rendering of the real SHA-1 of the input); those digests were not judged through authDigest", n)
+		}
 		states += nDigest
 	} else {
 		rep.Cap("sha1.New() seam could not be installed (bot=%v auth=%v): enumerated digests were pushed through twosComplement only; authDigest checked with real SHA-1 only", copies[0].seam, copies[1].seam)
@@ -938,6 +1079,7 @@ func main() {
 	rep.Count("all_zero_digest_unjudged", zeroDigests)
 	rep.Sample(Case{Part: "digest", Hex: "ff00000000000000000000000000000000000000"})
 
+	lap("digest")
 	// ---- binding with real SHA-1
 	for _, v := range [][2]string{{"Notch", "4ed1f46bbe04bc756bcb17c0c7ce3e4632f06a48"}, {"jeb_", "-7c9d5b0044c130109a5d7b5fb5c317c02b4e28c1"}, {"simon", "88e16a1019277b15d58faf0541e11910eb756f6"}} {
 		for _, cp := range copies {
@@ -984,13 +1126,35 @@ func main() {
 		counterN = 100000000
 	}
 	engine.ParallelFor(256, func(_, shard int) {
+		var bw bindWalker
 		for i := shard; i < counterN; i += 256 {
-			judgeBind(fmt.Sprintf("s%d", i), asc, keys[3])
+			bw.call(fmt.Sprintf("s%d", i), asc, keys[3])
 		}
 	})
 	nBind := int64(len(triples) + counterN)
+	// the same counter walk in three more size classes of the hashed input (a path taken only for small or
+	// only for large inputs meets the rare digest shapes too): server id alone, a 2048-bit key, a 4096-bit key
+	classN := counterN / 8
+	classKeys := [][]byte{nil, fillBytes(294, 13, 5), fillBytes(550, 13, 5)}
+	classSecrets := [][]byte{nil, asc, asc}
+	engine.ParallelFor(256, func(_, shard int) {
+		var bw bindWalker
+		for i := shard; i < classN; i += 256 {
+			for c := range classKeys {
+				bw.call(fmt.Sprintf("t%d", i), classSecrets[c], classKeys[c])
+			}
+		}
+	})
+	nBind += int64(3 * classN)
+	rep.Extra("bind_counter_walk", fmt.Sprintf("server ids s0..s%d with a 16-byte secret and a 162-byte key; t0..t%d in each of: no secret/no key, 294-byte key, 550-byte key", counterN-1, classN-1))
+	if th {
+		nBind += bindLengths(4096)
+	} else {
+		nBind += bindLengths(600)
+	}
 	rep.Eval(2 * nBind)
 	rep.Count("bind_triples_real_sha1", nBind)
+	rep.Count("bind_results_reread_after_the_next_call", int64(counterN+3*classN-2*256))
 	rep.Count("bind_real_digests_with_leading_zero_byte", bstats.leadZeroByte)
 	rep.Count("bind_real_digests_with_leading_zero_nibble", bstats.leadZeroNibble)
 	rep.Count("bind_real_digests_negative", bstats.negative)
@@ -999,6 +1163,7 @@ func main() {
 	states += nBind
 	rep.Sample(Case{Part: "bind", ServerID: hex.EncodeToString([]byte("jeb_"))})
 
+	lap("bind")
 	// ---- signature forgeries
 	<-famReady
 	k := fam.k
@@ -1031,16 +1196,33 @@ func main() {
 	judgeExpired()
 	rep.Count("forgeries", int64(len(sigs)+1))
 	states += int64(len(sigs) + 1)
+	lap("sig")
+	if th {
+		states += sigHistories(user.VerifMojangKey(), 4, 3)
+	} else {
+		states += sigHistories(user.VerifMojangKey(), 3, 2)
+	}
+
+	lap("sig-history")
+	// ---- the session hash inside the two login flows
+	if th {
+		states += wiring(64, 256)
+	} else {
+		states += wiring(8, 32)
+	}
+	rep.Sample(Case{Part: "wire", Entry: "bot", ServerID: hex.EncodeToString([]byte("-")), Bits: 1024})
 	rep.Sample(sigs[len(sigs)/2])
 
+	lap("wire")
 	rep.NonTrivial(states - 1)
 	rep.AddStates(states)
 	rep.AddTrans(rep.Evaluations)
 	rep.AddTraces(rep.Evaluations)
+	rep.Extra("wall_by_part_s", lapParts)
 	rep.Extra("services_key_bytes", k)
 	rep.Extra("seam_installed", seamOK)
 	rep.Extra("signature_lengths", len(lens))
-	rep.Assume("refjava (math/big BigInteger, MD5 name UUID) is trusted and pinned to the wiki.vg digests and the published offline UUID; the sha1.New seam replaces only the hash constructor in mechanically rewritten copies of the current bot/login.go and server/auth/auth.go; real SHA-1 binds both copies to refjava on an enumerated family; unforgeability is decided for the listed finite forgery family only")
+	rep.Assume("refjava (math/big BigInteger, MD5 name UUID) is trusted and pinned to the wiki.vg digests and the published offline UUID; the sha1.New seam replaces only the hash constructor in mechanically rewritten copies of the current bot/login.go and server/auth/auth.go; real SHA-1 binds both copies to refjava on an enumerated family; unforgeability is decided for the listed finite forgery family only; the history part replaces the trusted services key by a harness key (seam VerifSetMojangKey) because no genuine pair exists for the real key; the wire part replaces http.DefaultTransport and takes the client's shared secret from go-mc's own crypto/rand draw (recovered by decrypting the encryption response), so which digests it meets is not controlled — it decides the wiring of the inputs, the digest shapes are decided by the seam part")
 	rep.Note("unspecified: rendering of the all-zero digest (no triple with that SHA-1 is known); panics while parsing a malformed wire key (C08)")
 	rep.Finish()
 }
